@@ -2,6 +2,8 @@
    Property theorems only; proofs are in XcpProofs.{ExtentsProofs,SparseProofs}. *)
 From XcpModel Require Import Base Extents Sparse.
 From XcpProofs Require Import ExtentsProofs SparseProofs.
+From XcpModel Require Import Extracted.
+From XcpProofs Require Import ExtractedOk.
 
 (* --- merging never drops coverage (all lists of well-formed extents,
        sorted or not, any length) --- *)
@@ -86,6 +88,13 @@ Check merge_covers_needs_wf : exists l i, covered l i /\ ~ covered (merge_extent
 Check merge_gap_is_added :
   exists l i, Forall ext_wf l /\ sorted_disjoint l /\ ~ covered l i /\ covered (merge_extents l) i.
 
+(* ---- tie to the current source (translator): the model's definitions used above are
+   EQUAL to what /verif/xlate extracts from the repository on this run ---- *)
+Theorem C19_src_merge_extents : forall l, x_merge_extents l = merge_extents l.
+Proof. exact x_merge_extents_ok. Qed.
+Theorem C19_src_fiemap_page_and_eof : x_fiemap_page_size = N.of_nat FIEMAP_PAGE_SIZE /\ x_lseek_eof_errnos = [ENXIO].
+Proof. split; [exact x_fiemap_page_size_ok|exact x_lseek_eof_ok]. Qed.
+
 Print Assumptions C19_merge_covers.
 Print Assumptions C19_merge_boundaries.
 Print Assumptions C19_merge_adds_only_gaps.
@@ -94,3 +103,5 @@ Print Assumptions C19_map_extents_complete.
 Print Assumptions C19_map_extents_sorted_and_exact.
 Print Assumptions C19_merged_map_covers.
 Print Assumptions C19_segments_cover_data.
+Print Assumptions C19_src_merge_extents.
+Print Assumptions C19_src_fiemap_page_and_eof.
